@@ -92,6 +92,11 @@ func (ih *ImportHandler) ExtractTypeRef(typ types.Type) string {
 		return ih.addNamed(t)
 	case *types.Named:
 		return ih.addNamed(t)
+	case *types.Basic:
+		// The type of a constant may be an untyped kind ("untyped float", "untyped rune", ...),
+		// which is not something source code can name; refer to its default type instead
+		// (float64, rune, ...). Typed basic types are their own default.
+		return types.Default(t).String()
 	default:
 		// *types.Interface is usually handled here too.
 		// "*types.Basic"s e.g. string come out as "untyped string"; we need to drop
